@@ -204,3 +204,61 @@ def sim_clock(fl, now):
 
 def set_now(now):
     config.current_time = now
+
+
+# ---------------------------------------------------------------------------------------------------------------
+# live-mode world (BaseFlumine + BetfairClient + BetfairExecution against an exchange double)
+# ---------------------------------------------------------------------------------------------------------------
+class InlinePool:
+    """ThreadPoolExecutor stand-in: handler granularity, each execute_* body runs atomically at submit time"""
+    _threads = ()
+    _work_queue = NS(qsize=lambda: 0)
+
+    def submit(self, fn, *a, **kw):
+        fn(*a, **kw)
+
+    def shutdown(self, wait=True):
+        pass
+
+
+def new_live(n_strategies=1, exchange=None, strategy_kwargs=None, hooks=None, client_kwargs=None):
+    bc = NS(lightweight=False, username="live", betting=exchange if exchange is not None else NS(), session_expired=False)
+    ck = dict(order_stream=False)
+    ck.update(client_kwargs or {})
+    client = BetfairClient(betting_client=bc, **ck)
+    fl = BaseFlumine(client)
+    ex = fl.betfair_execution
+    ex._thread_pool = InlinePool()
+    ex._get_http_session = lambda: NS(time_created=0, time_returned=0)
+    strategies = []
+    for i in range(n_strategies):
+        s = add_live_strategy(fl, "strat%d" % i, (strategy_kwargs or {}) if not isinstance(strategy_kwargs, list) else strategy_kwargs[i],
+                              (hooks or {}) if not isinstance(hooks, list) else hooks[i])
+        strategies.append(s)
+    return fl, client, strategies
+
+
+def add_live_strategy(fl, name, strategy_kwargs=None, hooks=None):
+    sk = dict(market_filter={"marketIds": [MID]}, name=name, max_order_exposure=None, max_selection_exposure=None, max_live_trade_count=10**6)
+    sk.update(strategy_kwargs or {})
+    s = RecordingStrategy(hooks=hooks or {}, **sk)
+    s.streams = [NS(stream_id=STREAM_ID)]
+    fl.strategies(s, fl.clients, fl)
+    return s
+
+
+def current_order(ref, bet_id, market_id=MID, selection_id=1, handicap=0, side="BACK", price=2.0, size=2.0, status="EXECUTABLE",
+                  size_matched=0.0, size_remaining=None, average_price_matched=0.0, size_cancelled=0.0, size_lapsed=0.0, size_voided=0.0,
+                  order_type="LIMIT", persistence_type="LAPSE", bsp_liability=None, placed_date=None):
+    return NS(customer_order_ref=ref, customer_strategy_ref=config.customer_strategy_ref, market_id=market_id, bet_id=bet_id,
+              selection_id=selection_id, handicap=handicap, side=side, order_type=order_type, persistence_type=persistence_type,
+              price_size=NS(price=price, size=size), bsp_liability=bsp_liability, status=status, size_matched=size_matched,
+              size_remaining=(size - size_matched) if size_remaining is None else size_remaining,
+              average_price_matched=average_price_matched, size_cancelled=size_cancelled, size_lapsed=size_lapsed, size_voided=size_voided,
+              placed_date=placed_date or (core._EPOCH + _dt.timedelta(milliseconds=T0_MS)), matched_date=None, cancelled_date=None, lapsed_date=None,
+              regulator_auth_code=None, regulator_code=None)
+
+
+def current_orders_event(client, orders):
+    from flumine.events import events
+    return events.CurrentOrdersEvent([NS(client=client, orders=list(orders), market_id=MID, streaming_update=None)])
